@@ -37,6 +37,20 @@ type isE1 struct{}
 func (isE1) Error() string        { return "isE1" }
 func (isE1) Is(target error) bool { return target == errE1 }
 
+// uncomparable error values
+type sliceErr []string
+
+func (s sliceErr) Error() string { return "sliceErr" }
+
+type uncmpErr struct{ tags []string }
+
+func (u uncmpErr) Error() string { return "uncmpErr" }
+
+type uncmpIsE2 struct{ tags []string }
+
+func (u uncmpIsE2) Error() string        { return "uncmpIsE2" }
+func (u uncmpIsE2) Is(target error) bool { return target == errE2 }
+
 type outcome struct {
 	Res  int
 	Err  error
@@ -115,6 +129,12 @@ func (cs condSet) matches(res int, err error) (matched bool, errorsChecked bool)
 		case "EE", "EE2":
 			errorsChecked = true
 			matched = matched || errors.Is(err, errE1) || errors.Is(err, errE2)
+		case "Eu":
+			errorsChecked = true
+			matched = matched || errors.Is(err, uncmpErr{tags: []string{"x"}})
+		case "Eus":
+			errorsChecked = true
+			matched = matched || errors.Is(err, sliceErr{"a"}) || errors.Is(err, errE2)
 		case "TT", "TT2":
 			errorsChecked = true
 			matched = matched || typeWalk(err, reflect.TypeOf(valErr{})) || typeWalk(err, reflect.TypeOf(&ptrErr{}))
@@ -176,6 +196,10 @@ func applyHandle[S any](b failureBuilder[S], cs condSet) {
 			errs := []error{errE1, errE2}
 			b.HandleErrors(errs...)
 			errs[0], errs[1] = errE3, errE3
+		case "Eu":
+			b.HandleErrors(uncmpErr{tags: []string{"x"}})
+		case "Eus":
+			b.HandleErrors(sliceErr{"a"}, errE2)
 		case "EE":
 			b.HandleErrors(errE1, errE2)
 		case "EE2":
@@ -395,6 +419,10 @@ func c12Abort(rep *vk.Report, idx int, cs condSet, o outcome) {
 			errs := []error{errE1, errE2}
 			rpb.AbortOnErrors(errs...)
 			errs[0], errs[1] = errE3, errE3
+		case "Eu":
+			rpb.AbortOnErrors(uncmpErr{tags: []string{"x"}})
+		case "Eus":
+			rpb.AbortOnErrors(sliceErr{"a"}, errE2)
 		case "EE":
 			rpb.AbortOnErrors(errE1, errE2)
 		case "EE2":
